@@ -241,6 +241,6 @@ pub fn list() -> Vec<Entry> {
     )+ } }
     per!(0, true; Vec2 Vec3 Vec4 Extent2 Extent3 Rgb Rgba Uv Uvw);
     per!(0, false; Vec8 Vec16);
-    per!(1, false; Vec32 Vec64);
+    per!(0, false; Vec32 Vec64);
     v
 }
